@@ -4,13 +4,16 @@
 // Oracle 2 (tsan flavour): ThreadSanitizer, which cannot see the scheduler's hand-off, reports any unsynchronised pair.
 #include <chrono>
 #include "scen_util.h"
+#include "zoo_gen.h"
 #include "simsched.h"
 #include "bitserializer/types/std/chrono.h"
 
 namespace hz {
 
-enum OpKind { OP_SAVE_OWN = 0, OP_LOAD_OWN, OP_SAVE_SHARED, OP_LOAD_SHARED, OP_CONVERT, OP_LOAD_INVALID, OP_LOAD_CORRUPT, OP_COUNT };
-static const char* OpName(int k) { static const char* n[] = { "save_own", "load_own", "save_shared", "load_shared", "convert", "load_invalid", "load_corrupt" }; return n[k]; }
+enum OpKind { OP_SAVE_OWN = 0, OP_LOAD_OWN, OP_SAVE_SHARED, OP_LOAD_SHARED, OP_CONVERT, OP_LOAD_INVALID, OP_LOAD_CORRUPT, OP_SAVE_SHARED_ZOO, OP_LOAD_SHARED_ZOO, OP_COUNT };
+static const char* OpName(int k) { static const char* n[] = { "save_own", "load_own", "save_shared", "load_shared", "convert", "load_invalid", "load_corrupt", "save_shared_zoo", "load_shared_zoo" }; return n[k]; }
+
+bool g_coldRun = false;   // set by the worker's `cold` command: nothing of the library has run in this process yet
 
 struct Op
 {
@@ -31,6 +34,8 @@ struct Shared
 	DynNode doc[A_COUNT];             // const while the threads run
 	std::string bytes[A_COUNT];       // const while the threads run
 	SerializationOptions options;     // const while the threads run
+	Zoo zoo[A_COUNT];                 // const while the threads run (every std adapter, saved by several threads at once)
+	std::string zooBytes[A_COUNT];    // const while the threads run
 };
 
 struct ThreadWork
@@ -102,6 +107,39 @@ static std::string Execute(const Op& op, const Shared& sh)
 		}
 		return Summ(r, TraceRepr(target));
 	}
+	case OP_SAVE_SHARED_ZOO:
+	{
+		Zoo& z = const_cast<Zoo&>(sh.zoo[op.archive]);   // saving does not modify the model
+		std::string out;
+		CallResult r;
+		if (!op.stream) r = Guarded([&] { ops.SaveZoo(z, o, IoOut{ &out, nullptr }); });
+		else
+		{
+			sim::SimOStreamBuf sb(out, op.outBuf);
+			std::ostream os(&sb);
+			r = Guarded([&] { ops.SaveZoo(z, o, IoOut{ nullptr, &os }); });
+			os.flush();
+		}
+		return Summ(r, out);
+	}
+	case OP_LOAD_SHARED_ZOO:
+	{
+		Zoo target;
+		target.skipIntKeyMaps = sh.zoo[op.archive].skipIntKeyMaps;
+		target.csvRoot = sh.zoo[op.archive].csvRoot;
+		const std::string& bytes = sh.zooBytes[op.archive];
+		CallResult r;
+		if (!op.stream) r = Guarded([&] { ops.LoadZoo(target, o, IoIn{ &bytes, nullptr }); });
+		else
+		{
+			sim::SimIStreamBuf sb(bytes, true, op.delivery);
+			std::istream is(&sb);
+			r = Guarded([&] { ops.LoadZoo(target, o, IoIn{ nullptr, &is }); });
+		}
+		std::string payload;
+		for (auto& kv : ZooFields(target, op.archive == A_CSV)) payload += kv.first + "=" + kv.second + ";";
+		return Summ(r, payload);
+	}
 	default:
 	{
 		std::string acc;
@@ -112,6 +150,7 @@ static std::string Execute(const Op& op, const Shared& sh)
 			acc += C::ToString(op.real) + ";";
 			acc += std::to_string(C::To<int64_t>(C::ToString(op.number))) + ";";
 			acc += C::ToString(static_cast<BitSerializer::ArchiveType>(static_cast<int>(static_cast<uint64_t>(op.number) % 5))) + ";";
+			acc += std::to_string(static_cast<int>(C::To<Color>(std::string(op.number % 2 ? "green" : "Blue")))) + ";";
 			acc += std::to_string(static_cast<int>(C::To<BitSerializer::SerializationErrorCode>(std::string("Overflow")))) + ";";
 			const auto tp = std::chrono::system_clock::time_point(std::chrono::seconds(op.number % 4000000000ll));
 			const std::string iso = C::ToString(tp);
@@ -158,6 +197,12 @@ Outcome RunC19(RunCtx& ctx)
 		g.forceContainerRoot = true;
 		sh.doc[a] = GenDocument(s, sim::L_DOC, g);
 		(void)SaveDynWith(GetOps(a), sh.doc[a], sh.bytes[a], sh.options, OutCfg{});
+		ZooGenCfg zg;
+		zg.archive = a;
+		zg.maxLen = 4;
+		GenZoo(s, sim::L_DOC, sh.zoo[a], zg);
+		if (a == A_CSV) EnsureCsvRow(sh.zoo[a]);
+		(void)SaveZooWith(GetOps(a), sh.zoo[a], sh.zooBytes[a], sh.options, OutCfg{});
 	}
 	std::vector<ThreadWork> work(T);
 	std::string plan;
@@ -195,12 +240,18 @@ Outcome RunC19(RunCtx& ctx)
 	}
 	ResetKnobs();
 
-	// ---- sequential reference (same process, same inputs) ----
+	// ---- sequential reference (same process, same inputs); a cold run computes it AFTER the scheduled run, so that every
+	//      first-use initialisation inside the library happens under the scheduler ----
 	std::vector<std::vector<std::string>> expected(T);
-	sim::steps_begin(UINT64_MAX);
-	for (uint32_t t = 0; t < T; ++t) for (auto& op : work[t].ops) expected[t].push_back(Execute(op, sh));
-	const uint64_t seqSteps = sim::steps_now();
-	sim::steps_end();
+	uint64_t seqSteps = 60000;
+	auto sequential = [&]
+	{
+		sim::steps_begin(UINT64_MAX);
+		for (uint32_t t = 0; t < T; ++t) { expected[t].clear(); for (auto& op : work[t].ops) expected[t].push_back(Execute(op, sh)); }
+		seqSteps = sim::steps_now();
+		sim::steps_end();
+	};
+	if (!g_coldRun) sequential();
 
 	// ---- the schedule ----
 	static sim::SchedPlan sp;
@@ -230,6 +281,7 @@ Outcome RunC19(RunCtx& ctx)
 	batch.shared = &sh;
 	batch.work = &work;
 	const sim::SchedResult sr = sim::sched_run(sp, ThreadBody, &batch);
+	if (g_coldRun) { sequential(); ctx.count("cold_runs"); }
 	sim::ev(sim::EV_S_SWITCH, sr.switches, sr.switchHash);
 	ctx.note("scheduled run: steps=" + std::to_string(sr.steps) + " switches=" + std::to_string(sr.switches));
 	ctx.count("switches", sr.switches);
